@@ -293,9 +293,10 @@ StepHist(s, e) ==
          (* "every state that is entered logs StateEntered with its input": an entry logged while an event is being
             delivered names that event's state and carries that event's data *)
          \o (LET m == IF s.fr.cause = "deliver" /\ s.fr.mid \in DOMAIN s.ev THEN s.ev[s.fr.mid] ELSE [exec |-> "", state |-> "", datatext |-> ""]
-                 entered == \E t \in StateTypeNames : e.ev.type = t \o "StateEntered"
+                 (* ... and so does ExecutionStarted ("beginning with ExecutionStarted carrying the input") *)
+                 entered == e.ev.type = "ExecutionStarted" \/ \E t \in StateTypeNames : e.ev.type = t \o "StateEntered"
              IN ChkX(~(entered /\ s.fr.cause = "deliver" /\ s.fr.mid \in DOMAIN s.ev /\ m.exec \in {"", x})
-                     \/ ((m.state = "" \/ e.ev.name = m.state) /\ e.ev.input.set /\ e.ev.input.s = m.datatext),
+                     \/ ((m.state = "" \/ e.ev.type = "ExecutionStarted" \/ e.ev.name = m.state) /\ e.ev.input.set /\ e.ev.input.s = m.datatext),
                      "C09", "EnteredWithItsInput", x, [name |-> e.ev.name, state |-> m.state, input |-> e.ev.input]))
          \o ChkX(NothingAfterTerminal(h1), "C09", "NothingAfterTerminal", x, e.ev.type)
          \o ChkX(~again, "C06", "FanOutFailsOnce", x, id))
